@@ -281,8 +281,14 @@ def conclude(ctx, mod, t0, evidence_path, args):
             rep = dict(rep or {}, relativised=detail)
         violations.append((vc, rep))
     # --- bounded stand-ins -------------------------------------------------------------------
+    undecided_cases = []
     for b in ctx.bounded:
         for f in b.failures:
+            if isinstance(f, dict) and f.get("unknown"):
+                # a case of an enumeration that no solver decided within the budget: a gap in coverage (recorded in the
+                # evidence), not a verdict about the code
+                undecided_cases.append({"bounded": b.name, "case": {k: v for k, v in f.items() if k != "unknown"}})
+                continue
             matched = None
             for k in known:
                 if k.get("bounded") != b.name:
@@ -306,6 +312,9 @@ def conclude(ctx, mod, t0, evidence_path, args):
             continue
         seen.add(k["id"])
         lines.append(f"KNOWN-FINDING: property={prop} {k['what']}")
+    for u in undecided_cases[:5]:
+        lines.append(f"NOTE: property={prop} bounded case left undecided by the solvers (coverage gap, not a verdict): {json.dumps(u, default=str)[:200]}")
+    ctx.notes += [f"undecided bounded case: {json.dumps(u, default=str)[:300]}" for u in undecided_cases]
     status = 0
     os.makedirs(os.path.join(VERIF, "replays", prop), exist_ok=True)
     for i, (vc, rep) in enumerate(violations):
